@@ -390,7 +390,9 @@ static void merge_bag(void *clos, const uint8_t *key, size_t len_key,
 		sb_printf(&s, ",\"fail\":%s}", fail ? "true" : "false");
 		sb_emit(&s);
 	}
-	if (fail) { free(r); *out = NULL; *nout = 0; return; }
+	/* failure is reported by handing back no value: for keys whose length is a multiple of 3 by storing NULL explicitly, otherwise by returning without
+	 * touching the result arguments (the library hands them in cleared for every call) */
+	if (fail) { free(r); if (len_key % 3 == 0) { *out = NULL; *nout = 0; } return; }
 	*out = r; *nout = k;
 }
 static int dupsort_bytes(void *clos, const uint8_t *key, size_t len_key,
